@@ -163,6 +163,8 @@ class Repo:
                 tree = ast.parse(text, filename=rel)
             except SyntaxError as e:
                 raise AnalysisError(f"cannot parse {rel}: {e}")
+            from .normalise import normalise
+            tree = normalise(tree)
             m = Module(self, rel, self.path(rel), text, tree)
         self._mods[rel] = m
         return m
